@@ -474,51 +474,54 @@ func (c *Ctx) orphansAllAdopted(ao *load.FuncInfo, hostBody *ast.BlockStmt, adop
 	}
 	argID, _ := arg.(*ast.Ident)
 	name := "adoptOrphanRevisions: " + types.ExprString(arg)
-	switch {
-	case argID != nil && isListing(stmtOf(hostBody, adoptCall), argID):
-		c.OK("C18.4-every-orphan-adopted", name, adoptCall.Pos(), "the adoption receives the listing itself")
-	case argID == nil:
-		c.Unk("C18.4-every-orphan-adopted", name, adoptCall.Pos(), "the revisions handed to the adoption are not a variable")
-	default:
+	// collecting: one loop over the source that appends every element without a controller
+	collect := func(cfn *gf.Fn, can *gf.Analysis, cinfo *types.Info, body *ast.BlockStmt, res types.Object, overSource func(loop *ast.RangeStmt) bool) (bool, string) {
 		nApp := 0
 		good := true
 		why := ""
-		ownNodes(hostBody, func(x ast.Node) {
+		ownNodes(body, func(x ast.Node) {
 			as, ok := x.(*ast.AssignStmt)
 			if !ok || len(as.Lhs) != 1 || len(as.Rhs) != 1 {
 				return
 			}
 			l, _ := ast.Unparen(as.Lhs[0]).(*ast.Ident)
 			call, _ := ast.Unparen(as.Rhs[0]).(*ast.CallExpr)
-			if l == nil || call == nil || info.ObjectOf(l) != info.ObjectOf(argID) || len(call.Args) != 2 {
+			if l == nil || call == nil || cinfo.ObjectOf(l) != res || len(call.Args) != 2 {
 				return
 			}
 			if id, ok := call.Fun.(*ast.Ident); !ok || id.Name != "append" {
 				return
 			}
-			loop, isR := innermostLoop(hostBody, as).(*ast.RangeStmt)
+			loop, isR := innermostLoop(body, as).(*ast.RangeStmt)
 			if !isR {
 				return
 			}
 			cell := loopCell(loop)
-			if cell == nil || fn.Term(call.Args[1]).Key() != fn.Term(cell).Key() {
+			if cell == nil {
 				return
 			}
-			if !isListing(loop, loop.X) {
+			if same, _ := can.StateBefore(as).Implies(gf.FEq(cfn.Term(call.Args[1]), cfn.Term(cell))); cfn.Term(call.Args[1]).Key() != cfn.Term(cell).Key() && !same {
+				// `for _, rev := range xs`: the value variable is the cell
+				if v, isID := loop.Value.(*ast.Ident); !isID || cfn.Term(call.Args[1]).Key() != cfn.Term(v).Key() {
+					return
+				}
+				cell = loop.Value
+			}
+			if !overSource(loop) {
 				good, why = false, "the collecting loop does not range over the listing"
 				return
 			}
 			nApp++
 			start := loop.Body.List[0]
-			orphan := gf.And(c.Want(fn, loop.Body.Pos(), "metav1.GetControllerOf($1) == nil", cell), c.Want(fn, loop.Body.Pos(), "metav1.GetControllerOfNoCopy($1) == nil", cell))
-			aU := fn.FromUntil(start, an.StateBefore(start).Assume(orphan), as)
-			if head := loopHead(fn, loop); head == nil || aU.BlockReached(head) {
+			orphan := gf.And(c.Want(cfn, loop.Body.Pos(), "metav1.GetControllerOf($1) == nil", cell), c.Want(cfn, loop.Body.Pos(), "metav1.GetControllerOfNoCopy($1) == nil", cell))
+			aU := cfn.FromUntil(start, can.StateBefore(start).Assume(orphan), as)
+			if head := loopHead(cfn, loop); head == nil || aU.BlockReached(head) {
 				good, why = false, "an iteration for a revision without a controller can end without appending it: that orphan is never adopted, and its pods' revision is re-created"
 			}
 			ownNodes(loop.Body, func(y ast.Node) {
 				switch b := y.(type) {
 				case *ast.BranchStmt:
-					if b.Tok == token.BREAK && innermostLoop(hostBody, b) == ast.Stmt(loop) {
+					if b.Tok == token.BREAK && innermostLoop(body, b) == ast.Stmt(loop) {
 						good, why = false, "the collecting loop can stop early"
 					}
 				case *ast.ReturnStmt:
@@ -529,6 +532,36 @@ func (c *Ctx) orphansAllAdopted(ao *load.FuncInfo, hostBody *ast.BlockStmt, adop
 		if nApp == 0 && good {
 			good, why = false, "no loop over the listing fills the slice handed to the adoption"
 		}
+		return good, why
+	}
+	hostFI := c.hostOf(ao, adoptCall)
+	cfi, res, src := c.collectorOf(hostFI, arg)
+	switch {
+	case argID != nil && isListing(stmtOf(hostBody, adoptCall), argID):
+		c.OK("C18.4-every-orphan-adopted", name, adoptCall.Pos(), "the adoption receives the listing itself")
+	case cfi == nil || res == nil:
+		c.Unk("C18.4-every-orphan-adopted", name, adoptCall.Pos(), "the revisions handed to the adoption are neither a variable filled here nor the result of a filter function")
+	case cfi != hostFI:
+		// a filter function: its loop ranges over its source parameter, which is bound to the listing where it is called
+		ffn, fan := c.Analysis(cfi)
+		k := gf.SubSequenceFuncs()[cfi.Obj.FullName()]
+		if cfi.Obj.Type().(*types.Signature).Recv() != nil {
+			k--
+		}
+		var srcParam types.Object
+		if ps := cfi.Obj.Type().(*types.Signature).Params(); k >= 0 && k < ps.Len() {
+			srcParam = ps.At(k)
+		}
+		good, why := collect(ffn, fan, cfi.Pkg.TypesInfo, cfi.Decl.Body, res, func(loop *ast.RangeStmt) bool {
+			id, ok := ast.Unparen(loop.X).(*ast.Ident)
+			return ok && srcParam != nil && cfi.Pkg.TypesInfo.ObjectOf(id) == srcParam
+		})
+		if good && !isListing(stmtOf(hostBody, adoptCall), src) {
+			good, why = false, "the filter is not applied to the listing"
+		}
+		c.Check(good, "C18.4-every-orphan-adopted", name, adoptCall.Pos(), "a filter over the whole listing that keeps every revision without a controller", why)
+	default:
+		good, why := collect(fn, an, info, hostBody, res, func(loop *ast.RangeStmt) bool { return isListing(loop, loop.X) })
 		c.Check(good, "C18.4-every-orphan-adopted", name, adoptCall.Pos(), "filled by a loop over the whole listing that appends every revision without a controller", why)
 	}
 	// (b) no early success between the start of the label sync and the adoption
